@@ -500,6 +500,9 @@ func checkC02(w *World) {
 	w.noBypass(P, f, r)
 	// a predicate on a filter expression numbers the node-set in document order: unions are forward-normalised
 	w.include(P, "C03", "R03.3", "R03.5", "R03.6")
+	// position() and last() keep their meaning inside function arguments and operands of the predicate expression
+	w.include(P, "C01", "R01.13")
+	w.include(P, "C11", "R11.5")
 
 	// R02.6
 	w.perContextNode(P, f, r)
@@ -1249,6 +1252,9 @@ func checkC18(w *World) {
 	// one-argument forms read of their argument (the first in document order)
 	w.include(P, "C12", "R12.3")
 	w.include(P, "C04", "R04.5")
+	w.include(P, "C01", "R01.13") // sub-expressions are evaluated from the same context node, position and root
+	w.include(P, "C04", "R04.6")  // string()/number() as a step convert the context result like their one-argument forms
+	w.include(P, "C07", "R07.5")  // the zero-argument string functions read the context result itself
 }
 
 // selectorLocal: the selector treats every node of the incoming node-set independently: the parameter is only
